@@ -86,6 +86,11 @@ pub fn ot_span_id(v: u64) -> (r: OtSpanId) ensures r.value() == v { unimplemente
 #[verifier::external_body]
 pub fn unix_time(nanos: u64) -> (r: SystemTime) ensures r.unix_ns() == nanos { unimplemented!() }
 
+// R4t: T + Duration::from_nanos(N) for a SystemTime T (std: exact; panics only beyond the range of
+// SystemTime, which two u64 nanosecond counts cannot reach)
+#[verifier::external_body]
+pub fn time_plus_nanos(t: &SystemTime, nanos: u64) -> (r: SystemTime) ensures r.unix_ns() == t.unix_ns() + nanos { unimplemented!() }
+
 // R4v: V.reserve(n) has no observable effect on the contents
 #[verifier::external_body]
 pub fn vec_reserve<T>(v: &mut Vec<T>, n: usize) ensures final(v)@ == old(v)@ { v.reserve(n) }
